@@ -1,9 +1,11 @@
 package ringh
 
 import (
+	"context"
 	"sort"
 	"strconv"
 	"strings"
+	"time"
 
 	"go.miragespace.co/specter/spec/chord"
 	"verif/harness/hlib"
@@ -373,3 +375,206 @@ func F(format string, a ...any) string  { return hlib.F(format, a...) }
 // Revive lets the harness keep observing a session after an operation timed out (a membership
 // change asleep in its retry loop): repair tasks and dumps do not depend on the sleeping goroutine.
 func (s *Session) Revive() { s.Dead = false }
+
+// TimedLeaveInJoinWindow runs one real-timer scenario (millisecond task intervals, retries and timers of the
+// implementation itself) that the step-exact sessions cannot express: the owner L of a stored key leaves while its
+// successor S holds the membership lock for a joiner J placed directly behind L; the join is held before its
+// first or second FinishJoin call for a few task intervals, then everything is left to settle. The protocol
+// lines are judged by the drivers without a model comparison (timing is not reproducible):
+//
+//	timedget <key> <acknowledged value> => <value read through a live member after settling>
+//	timedquiet => ok | <dump of all nodes>          (placement judged on the Active nodes)
+func TimedLeaveInJoinWindow(run *hlib.Run, rng *hlib.Rng) {
+	const iv = 3 * time.Millisecond
+	n := 3 + rng.Intn(3)
+	ids := AdversarialIDs(rng, n+1)
+	start := rng.Intn(len(KeyTokens))
+	succOf := func(x uint64, strict bool) uint64 {
+		best, bd, first := ids[0], uint64(0), true
+		for _, m := range ids[:n] {
+			d := (m + M - x) % M
+			if strict && d == 0 {
+				d = M
+			}
+			if first || d < bd {
+				best, bd, first = m, d, false
+			}
+		}
+		return best
+	}
+	var leaver uint64
+	found := false
+	for i := range KeyTokens {
+		k := KeyTokens[(start+i)%len(KeyTokens)]
+		l := succOf(HashOf(k), false)
+		gap := (succOf(l, true) + M - l) % M
+		if gap < 3 {
+			continue
+		}
+		span := gap - 2
+		if span > 1000 {
+			span = 1000
+		}
+		leaver, found = l, true
+		ids[n] = (l + 1 + rng.U64()%span) % M
+		break
+	}
+	if !found {
+		run.Count("timed:skipped")
+		return
+	}
+	r := NewRing()
+	r.Interval = iv
+	for _, id := range ids {
+		r.New(id)
+	}
+	defer func() {
+		for _, id := range ids {
+			r.Crash(id)
+			r.Node(id).VerifStop()
+		}
+	}()
+	if r.Node(ids[0]).Create() != nil {
+		return
+	}
+	members := []uint64{ids[0]}
+	for _, id := range ids[1:n] {
+		if r.Node(id).Join(r.Wrap(members[rng.Intn(len(members))])) != nil {
+			run.Count("timed:setup-join-failed")
+			return
+		}
+		members = append(members, id)
+		time.Sleep(8 * iv)
+	}
+	time.Sleep(30 * iv)
+	ctx := context.Background()
+	retry := func(f func() error) error {
+		var err error
+		for a := 0; a < 60; a++ {
+			if err = f(); err == nil {
+				return nil
+			}
+			time.Sleep(2 * iv)
+		}
+		return err
+	}
+	acked := map[string]string{}
+	for _, k := range KeyTokens {
+		v := "v-" + k
+		entry := r.Wrap(members[rng.Intn(len(members))])
+		if retry(func() error { return entry.Put(ctx, []byte(k), []byte(v)) }) == nil {
+			acked[k] = v
+		}
+	}
+	joiner := ids[n]
+	holdAt, seen := 1+rng.Intn(2), 0
+	at, resume := r.PauseNext(func(m string) bool {
+		if !strings.HasPrefix(m, "FinishJoin") {
+			return false
+		}
+		seen++
+		return seen == holdAt
+	})
+	jd := make(chan error, 1)
+	peer := members[rng.Intn(len(members))]
+	go func() {
+		defer func() {
+			if recover() != nil {
+				jd <- chord.ErrJoinInvalidState
+			}
+		}()
+		jd <- r.Node(joiner).Join(r.Wrap(peer))
+	}()
+	ld := make(chan struct{})
+	hold := time.Duration(2+rng.Intn(6)) * iv
+	select {
+	case <-at:
+		go func() { defer close(ld); defer func() { recover() }(); r.Node(leaver).Leave() }()
+		time.Sleep(hold)
+		run.Count(F("timed:leave-inside-window-before-finishjoin-%d", holdAt))
+	case err := <-jd:
+		jd <- err
+		close(ld)
+		run.Count("timed:join-ended-before-window")
+	case <-time.After(3 * time.Second):
+		close(ld)
+	}
+	resume()
+	joined := false
+	select {
+	case err := <-jd:
+		joined = err == nil
+	case <-time.After(3 * time.Second):
+	}
+	select {
+	case <-ld:
+	case <-time.After(3 * time.Second):
+	}
+	// settle: wait (bounded) until the predecessor pointers of the Active nodes form the true ring and the dump
+	// has not changed for 10 task intervals; a run that does not get there in time is not judged (convergence
+	// is C02's subject, not this scenario's)
+	var live []uint64
+	settled := false
+	deadline := time.Now().Add(4 * time.Second)
+	prevDump, stableSince := "", time.Now()
+	for time.Now().Before(deadline) {
+		time.Sleep(5 * iv)
+		live = live[:0]
+		for _, m := range append(append([]uint64{}, members...), joiner) {
+			if (m != joiner || joined) && r.Node(m).VerifState() == chord.Active {
+				live = append(live, m)
+			}
+		}
+		sort.Slice(live, func(i, j int) bool { return live[i] < live[j] })
+		ok := len(live) > 0
+		for i, m := range live {
+			p := r.Node(m).VerifPred()
+			want := live[(i+len(live)-1)%len(live)]
+			if p == nil || p.ID() != want {
+				ok = false
+			}
+		}
+		d := r.Dump()
+		if d != prevDump {
+			prevDump, stableSince = d, time.Now()
+		}
+		if ok && time.Since(stableSince) >= 10*iv {
+			settled = true
+			break
+		}
+	}
+	if !settled {
+		run.Count("timed:not-settled")
+		return
+	}
+	run.Raw("reset")
+	for _, k := range KeyTokens {
+		run.Raw("defkey " + k + " " + U(HashOf(k)))
+	}
+	if len(live) == 0 {
+		return
+	}
+	keys := make([]string, 0, len(acked))
+	for k := range acked {
+		keys = append(keys, k)
+	}
+	sort.Strings(keys)
+	for _, k := range keys {
+		var val []byte
+		entry := r.Wrap(live[rng.Intn(len(live))])
+		err := retry(func() error {
+			var e error
+			val, e = entry.Get(ctx, []byte(k))
+			return e
+		})
+		res := string(val)
+		if err != nil {
+			res = "unavailable:" + ErrName(err)
+		} else if len(val) == 0 {
+			res = "-"
+		}
+		run.Emit("timedget "+k+" "+acked[k], res)
+	}
+	run.Emit("timedquiet", "ok | "+r.Dump())
+	run.Case(F("timed-%v-%d-%d", ids, leaver, holdAt))
+}
